@@ -19,6 +19,7 @@ ASSUMPTIONS = [
 ]
 
 CLAUSES = {
+    "direct:cancelled": "future_truthful",   # a sent request's future cancelled while the connection is up
     "direct:overwrite": "kept_until_acked",  # a new request saved over a stored, unacknowledged packet
     "direct:reset": "kept_until_acked",      # Session.Reset on a client that did not ask for a clean session
     "direct:resend": "resend_on_connect",    # CONNACK accepted but AllPackets(Outgoing) never asked for
